@@ -595,7 +595,12 @@ Theorem C06_ff_stale_import_refuted :
   Import.status_of (ResumeFF.stF2 ResumeFF.before_ff_check 2000) 1 = Some (Import.WImporting 1) /\
   Import.status_of (ResumeFF.stF3 ResumeFF.before_ff_check 2000) 1 = Some Import.WReady /\
   xreport (ResumeFF.stF3 ResumeFF.before_ff_check 2000) 1 =
-    spec_report ResumeFF.pF (key_owner (ResumeFF.stF3 ResumeFF.before_ff_check 2000)) ResumeFF.chainC 1.
+    spec_report ResumeFF.pF (key_owner (ResumeFF.stF3 ResumeFF.before_ff_check 2000)) ResumeFF.chainC 1 /\
+  (* [tipcheck_no_ff_check]: with asyncImport's chain check, the code right before this repair: the same
+     fast-forward, then every batch is refused: the wallet stays "importing" for ever *)
+  synced (x_w (ResumeFF.stF2 ResumeFF.tipcheck_no_ff_check 2)) = synced (x_w (ResumeFF.stF2 ResumeFF.before_ff_check 2)) /\
+  snd (import_batch ResumeFF.tipcheck_no_ff_check ResumeFF.pF 2 ResumeFF.chainC (ResumeFF.stF2 ResumeFF.tipcheck_no_ff_check 2) 1) = IRetry /\
+  Import.status_of (ResumeFF.stF3 ResumeFF.tipcheck_no_ff_check 2) 1 = Some (Import.WImporting 2).
 Proof. exact ResumeFF.ff_stale_import_refuted. Qed.
 Print Assumptions C06_ff_stale_import_refuted.
 
@@ -613,9 +618,9 @@ Example C06_ff_stale_import_repaired :
 Proof. exact ResumeFF.ff_stale_import_repaired. Qed.
 
 (* T11 = C06 for a restore in progress, Start with its fast-forward as repaired (proofs:
-   Ledger/ResumeFFProofs.v over C07's invariant [xinv p g U w keys c n st] of Ledger/ImportProofs2.v:
-   the handler follows the chain c, the node is on n, the store holds exactly the history of wallet w
-   on c up to the rescan cursor — or what a batch read on a chain the handler had not been told of).
+   Ledger/ResumeFFProofs.v over C07's invariant [xinv p g U w keys c st] of Ledger/ImportProofs2.v:
+   the handler follows the chain c and the store holds exactly the history of wallet w on c up to the
+   rescan cursor).
    From ANY such state — any cursor, the handler's chain c and the node's chain n ANY two well-formed
    chains on the same genesis (the node reorganised at any depth below, at or above the cursor, grown
    or shrunk while the process was down; n not a bare genesis), any margin ff >= 0: Start succeeds
@@ -624,8 +629,8 @@ Proof. exact ResumeFF.ff_stale_import_repaired. Qed.
 Theorem C06_ff_restart_any_chain : forall p g U w keys ff c n st,
   (forall b1 b2, In b1 U -> In b2 U -> b_id b1 = b_id b2 -> b1 = b2) ->
   (forall sh v, lookupN keys sh = Some v -> v = w) ->
-  0 <= ff -> ninv g U n -> (2 <= length n)%nat -> xinv p g U w keys c n st ->
-  exists st', ResumeFF.start_sync_ff repaired p ff n (xreopen st) = XOk st' /\ xinv p g U w keys n n st'.
+  0 <= ff -> ninv g U n -> (2 <= length n)%nat -> xinv p g U w keys c st ->
+  exists st', ResumeFF.start_sync_ff repaired p ff n (xreopen st) = XOk st' /\ xinv p g U w keys n st'.
 Proof. exact ResumeFFProofs.ff_restart_any_chain. Qed.
 Print Assumptions C06_ff_restart_any_chain.
 
